@@ -50,7 +50,7 @@ fn q_spec(rng: &mut Rng, w: &World) -> QSpec {
 
 struct RecipeSpec { text: String, ingredients: Vec<Option<QSpec>>, declared_servings: Option<Vec<u32>> }
 
-fn recipe_spec(rng: &mut Rng, w: &World) -> RecipeSpec {
+fn recipe_spec(rng: &mut Rng, w: &World, name_only_timers: bool) -> RecipeSpec {
     let mut s = String::new();
     let mut ings: Vec<Option<QSpec>> = vec![];
     let mut defined: Vec<&str> = vec![];
@@ -73,6 +73,8 @@ fn recipe_spec(rng: &mut Rng, w: &World) -> RecipeSpec {
     for _ in 0..n {
         match rng.below(9) {
             0 => { let q = q_spec(rng, w); let u = rng.pick(&["min", "minutes", "h", "s", "hours", "secs", "d"]); s.push_str(&format!("Wait ~{{{}%{u}}}. ", q.value.text())); }
+            // a timer with a name and no duration is accepted without TIMER_REQUIRES_TIME: it has no quantity, its outcome is NoQuantity
+            1 if name_only_timers && rng.chance(1, 2) => s.push_str(rng.pick_str(&["Rest ~nap{}. ", "Wait for the ~rest. ", "Then ~long nap{}. "])),
             1 => s.push_str(&format!("Rest ~nap{{{}%{}}}. ", rng.range(1, 200), rng.pick(&["min", "s", "h"]))),
             2 => s.push_str(&format!("Use a #{}{{{}}}. ", rng.pick(&["pan", "big pot", "bowl"]), rng.pick(&["1", "2", "1-2", "big", "=3", "1/2"]))),
             3 => s.push_str(&format!("Take the #{}{{}}. ", rng.pick(&["pan", "whisk"]))),
@@ -366,7 +368,10 @@ non-trivial = the recipe has an ingredient quantity; distinct = distinct request
     }
     for (w, parser, n) in &worlds {
         for i in 0..*n {
-            let spec = recipe_spec(&mut rng, w);
+            let nt = i % 4 == 3;
+            let spec = recipe_spec(&mut rng, w, nt);
+            let parser_nt;
+            let parser = if nt { parser_nt = CooklangParser::new(Extensions::all() - Extensions::TIMER_REQUIRES_TIME, w.conv.clone()); ctx.count("parser:without TIMER_REQUIRES_TIME"); &parser_nt } else { parser };
             let f = if i % 3 == 0 { 0.05 + rng.unit_f64() * 20.0 } else { *rng.pick(&factors) };
             let target = if rng.chance(1, 20) { 0 } else { rng.range(1, 24) as u32 };
             let force = match rng.below(20) { 0 => Some(vec![]), 1 => Some(vec![rng.range(1, 9) as u32, 4]), _ => None };
